@@ -137,7 +137,9 @@ def check_individual(ctx, n, k, randomize, seed):
            "vals": tk.toks(x.parameter_values) if x is not None else [], "seed": seed}
     ctx.case(req, nontrivial=k >= 2, tags=["individual", f"n:{n}"])
     if x is None:
-        if k >= 1:
+        if impl.get("err") == "nonTermination":
+            ctx.violate("random_individual does not terminate", req, impl, key="C20:individual:nontermination")
+        elif k >= 1:
             ctx.violate("random_individual raised for valid arguments", req, impl, key="C20:individual:raises")
     else:
         if not x.is_valid() or not all(layer_ok(l) for l in x.layers) or len(x.parameter_values) != sum(l.n_parameters for l in x.layers):
@@ -194,20 +196,30 @@ def run(ctx):
         if x is not None:
             check_add(ctx, x, rng.randint(1, 4), rng.randrange(2**31))
         if rng.random() < 0.3:
-            y = G.gen_individual(rng, wild=False)
+            try:
+                y = G.gen_individual(rng, wild=False)
+            except G.NonTermination as e:
+                ctx.violate("a random constructor does not terminate", {"generator": "gen_individual"}, repr(e), key="C20:individual:nontermination")
+                break
             check_add(ctx, y, rng.randint(1, 4), rng.randrange(2**31))
+        if len(ctx.violations) >= 20:
+            break
     # random_population: valid members, consecutive layers redundancy free
     for _ in range(ctx.n(10, 200)):
         n, k, size, seed = rng.randint(1, 5), rng.randint(1, 4), rng.randint(1, 6), rng.randrange(2**31)
         try:
-            pop = EVQEPopulation.random_population(n_qubits=n, n_layers=k, n_individuals=size, randomize_parameter_values=True, random_seed=seed)
+            with G.Recorder():  # non-termination guard
+                pop = EVQEPopulation.random_population(n_qubits=n, n_layers=k, n_individuals=size, randomize_parameter_values=True, random_seed=seed)
             for x in pop.individuals:
                 if not x.is_valid():
                     ctx.violate("random_population contains an invalid individual", {"n": n, "k": k, "size": size, "seed": seed}, None, key="C20:population")
                 check_chain(ctx, x.layers, "random_population", {"n": n, "k": k, "size": size, "seed": seed}, None)
             ctx.case({"population": [n, k, size, seed]}, nontrivial=k >= 2, tags=["population"])
         except Exception as e:  # noqa: BLE001
-            ctx.violate("random_population raised", {"n": n, "k": k, "size": size, "seed": seed}, repr(e), key="C20:population:raises")
+            if type(e).__name__ == "NonTermination":
+                ctx.violate("random_population does not terminate", {"n": n, "k": k, "size": size, "seed": seed}, repr(e), key="C20:population:nontermination")
+            else:
+                ctx.violate("random_population raised", {"n": n, "k": k, "size": size, "seed": seed}, repr(e), key="C20:population:raises")
 
 
 def replay(ctx, case):
